@@ -15,9 +15,11 @@ RULE = ("ALL terminal behaviours within the bound: start state in {INIT, "
         "PRE-OP, SAFE-OP, OP} x error flag x target in {PRE-OP, SAFE-OP, OP} x "
         "latency of each upward transition and of the acknowledge step in "
         "0..k polls (k=1 quick, 2 thorough) x an error appearing at status "
-        "poll j (j = 2..7) or never, driven through the full real stack "
+        "poll j (j = 2..7) or never x other bits of the status word set "
+        "(0x20, 0xff20), driven through the full real stack "
         "(Terminal.to_operational -> roundtrip -> sendloop -> simulated bus); "
-        "the ordered AL-control writes and AL-status reads seen by the "
+        "plus 3..31 terminals with random behaviours brought up concurrently "
+        "through one master; the ordered AL-control writes and AL-status reads seen by the "
         "terminal model and the call's outcome are checked by a trace "
         "automaton of the statement. a case = one behaviour; non-trivial = "
         "at least one state request or an error")
@@ -36,12 +38,23 @@ def plan(tier, seed):
         for err in (False, True):
             for target in (2, 4, 8):
                 shards.append(dict(start=start, err=err, target=target, k=k))
+    # the status word's other bits (0x20 device identification loaded,
+    # reserved upper bits) set, no error
+    for start in (1, 2, 4, 8):
+        for target in (2, 4, 8):
+            for extra in (0x20, 0xff20):
+                shards.append(dict(start=start, err=False, target=target,
+                                   k=min(k, 1), extra=extra))
+    for i in range(4):
+        shards.append(dict(many=True, seed=seed * 16 + i,
+                           count=6 if tier == "quick" else 60))
     return shards
 
 
-def run_one(start, err, target, lats, acklat, errpoll):
+def run_one(start, err, target, lats, acklat, errpoll, extra=0):
     """returns (events, outcome) outcome = ('ret', value) | ('exc', repr)"""
     t = bus.SimTerminal("T", station=77)
+    t.al_extra = extra
     t.al_state = start
     t.al_error = err
     latmap = {(1, 2): lats[0], (2, 4): lats[1], (4, 8): lats[2]}
@@ -140,16 +153,85 @@ def automaton(evs, out, target):
     return None
 
 
+def run_many(rng, n):
+    """n terminals brought up concurrently through one master (as a sync
+    group with many terminals does): each terminal's own trace must satisfy
+    the automaton whatever the others do"""
+    import random as _r
+    ts = []
+    for i in range(n):
+        t = bus.SimTerminal(f"T{i}", station=1000 + i)
+        t.al_state = rng.choice([1, 1, 2, 4, 8])
+        t.al_error = rng.random() < 0.15
+        lat = {(1, 2): rng.randint(0, 3), (2, 4): rng.randint(0, 3),
+               (4, 8): rng.randint(0, 3)}
+        ack = rng.randint(0, 2)
+        t.al_latency = (lambda lat, ack: lambda frm, to: lat.get(
+            (frm, to), ack if to == 1 else 0))(lat, ack)
+        ts.append(t)
+    targets = [rng.choice([2, 4, 8, 8]) for _ in range(n)]
+    b = bus.Bus(ts)
+
+    async def main(loop):
+        ec = EtherCat("vf")
+        bus.attach(ec, loop, b)
+
+        async def up(i):
+            term = Terminal(ec)
+            term.position = 1000 + i
+            try:
+                r = await asyncio.wait_for(
+                    term.to_operational(MachineState(targets[i])), 50)
+                return ("ret", repr(r))
+            except EtherCatError as ex:
+                return ("raised", str(ex)[:80])
+            except asyncio.TimeoutError:
+                return ("timeout", "")
+        return await asyncio.gather(*[up(i) for i in range(n)])
+    outs = aio.run(main)
+    return ts, targets, outs
+
+
+def many_leg(params, res):
+    import random
+    rng = random.Random(params["seed"] * 7 + 3)
+    for _ in range(params["count"]):
+        n = rng.choice([3, 14, 15, 16, 17, 20, 31])
+        ts, targets, outs = run_many(rng, n)
+        res.count("concurrent_bring_ups")
+        res.count("concurrent_terminals", n)
+        for i, (t, target, out) in enumerate(zip(ts, targets, outs)):
+            evs = [e for e in t.events
+                   if e[0] in ("al_control", "al_status_read", "al_refused")]
+            desc = dict(concurrent_terminals=n, terminal=i,
+                        target=NAMES[target])
+            res.case([desc, len(evs), params["seed"], _],
+                     nontrivial=True)
+            res.count("outcome:" + out[0])
+            why = automaton(evs, out, target)
+            if why:
+                res.violation("unexplained:concurrent-" + why.split(" ")[0],
+                              f"{why} [{desc}]", case=desc,
+                              witness=dict(events=evs[:30], outcome=out))
+                return
+
+
 def run_shard(params):
     res = Result()
+    if params.get("many"):
+        many_leg(params, res)
+        return res
     k = params["k"]
     start, err, target = params["start"], params["err"], params["target"]
     for lats in itertools.product(range(k + 1), repeat=3):
         for acklat in (range(k + 2) if err else [0]):
             for errpoll in [None, 2, 3, 4, 5, 6, 7]:
                 evs, out, t = run_one(start, err, target, lats, acklat,
-                                      errpoll)
+                                      errpoll, params.get("extra", 0))
+                if params.get("extra"):
+                    res.count("behaviours_with_other_status_bits_set")
                 desc = dict(start=NAMES[start], error=err,
+                            other_status_bits=params.get("extra", 0),
                             target=NAMES[target], latencies=lats,
                             ack_latency=acklat, error_at_poll=errpoll)
                 nreq = sum(1 for e in evs if e[0] == "al_control")
